@@ -38,6 +38,9 @@ func nativeFiles(fam, bounds string, chunk int) (map[string]string, int) {
 	files["rt/rt.go"] = gen.NativeRT
 	var pkgNames []string
 	n := 0
+	if fam == "conc" {
+		return concNativeFiles(bounds)
+	}
 	if fam == "std" {
 		sf, cnt, err := stdNativeFiles()
 		if err != nil {
